@@ -17,7 +17,7 @@ from hypothesis import strategies as st
 
 from vlib.core import PropertyViolation, with_budget, StepBudgetExceeded, raised_in_repo
 from vlib.classes import (build_dag, add_class, has_diamond, EV_ADD, EV_REMOVE, EV_RENAMED, EV_PROBE, EV_FALSY, EV_EQ,
-                          EV_UNHASH, EV_INSTANCE)
+                          EV_UNHASH, EV_INSTANCE, EV_LEAN, declared, declares_anything)
 
 EXPLICIT_IDS = [1, 2, 3, 4, 6, 'a', ('t', 1), -1, 0, True, 2.0, '', 9]
 NEVER_USED = ['never-used', 10 ** 9]
@@ -48,7 +48,9 @@ EV_SHAPES = [0, 0, EV_ADD | EV_REMOVE, EV_ADD, EV_REMOVE, EV_ADD | EV_REMOVE | E
              # value semantics: instances that are equal but distinct (hashable / unhashable)
              EV_EQ, EV_EQ | EV_ADD | EV_REMOVE | EV_PROBE, EV_UNHASH | EV_ADD | EV_REMOVE,
              # the mapping lives on the instances, the class declares nothing
-             EV_INSTANCE | EV_ADD | EV_REMOVE, EV_INSTANCE | EV_REMOVE | EV_PROBE]
+             EV_INSTANCE | EV_ADD | EV_REMOVE, EV_INSTANCE | EV_REMOVE | EV_PROBE,
+             # lean classes: only the declared callbacks exist as methods (hand-written handler classes)
+             EV_LEAN | EV_ADD, EV_LEAN | EV_REMOVE, EV_LEAN | EV_PROBE, EV_LEAN | EV_ADD | EV_REMOVE | EV_RENAMED]
 
 
 def decode_class(p):
@@ -245,7 +247,7 @@ class Run:
         nlate = min(case.get('late', 0), max(0, len(spec) - 2))
         self.late_specs = spec[len(spec) - nlate:] if nlate else []
         self.classes, self.eff_bases = build_dag(spec[:len(spec) - nlate] if nlate else spec)
-        self.ev = [getattr(c, '__events__', {}) for c in self.classes]
+        self.ev = [declared(c) for c in self.classes]
         self.world = make_world(case)
         self.sentinel = None
         self.attached = {}
@@ -337,7 +339,7 @@ class Run:
         return self.is_marked(e) and not self.owns(e)
 
     def maps(self, comp, event):
-        return event in getattr(comp, '__events__', {})
+        return event in declared(comp)
 
     def virtual_base(self):
         if getattr(self, '_virtual', None) is None:
@@ -510,7 +512,7 @@ class Run:
         group = []
         if old is not None:
             self.flags['replace'] += 1
-            if hasattr(old, '__events__'):
+            if declares_anything(old):
                 self.flags['handler_detached_by_replace'] += 1
             self.detached.append(old)
             if self.maps(old, 'on_remove'):
@@ -633,7 +635,7 @@ class Run:
             self.busy.pop()
         row = self.attached.pop(e)
         self.flags['delete_now'] += 1
-        if any(hasattr(c, '__events__') for c in row.values()):
+        if any(declares_anything(c) for c in row.values()):
             self.flags['handler_detached_by_delete_now'] += 1
         if self.is_pending(e):
             self.flags['pending_row_vanished_by_delete_now'] += 1
@@ -1021,7 +1023,7 @@ class Run:
         for e, row in self.attached.items():
             group.extend(('on_remove', c, e) for c in row.values() if self.maps(c, 'on_remove'))
             self.detached.extend(row.values())
-            if any(hasattr(c, '__events__') for c in row.values()):
+            if any(declares_anything(c) for c in row.values()):
                 self.flags['handler_detached_by_clear'] += 1
         self.attached = {}
         self.pending = []
@@ -1148,7 +1150,7 @@ class Run:
     def check_handlers(self):
         att = {id(c) for row in self.attached.values() for c in row.values()}
         for c in self.comps:
-            if not hasattr(c, '__events__'):
+            if not declares_anything(c):
                 continue
             try:
                 h = self.world.is_handler(c)
@@ -1393,7 +1395,7 @@ class Run:
                 if self.late_specs and i == late_at:
                     for c in self.late_specs:
                         add_class(self.classes, self.eff_bases, c)
-                        self.ev.append(getattr(self.classes[-1], '__events__', {}))
+                        self.ev.append(declared(self.classes[-1]))
                     self.late_specs = []
                     self.flags['classes_defined_mid_history'] += 1
                 self.step(op)
